@@ -697,6 +697,9 @@ struct Gen<'a> {
     nthreads: u64,
 }
 
+/// a frame handle in scope: (handle, its context)
+type Idle = Vec<(u64, u64)>;
+
 impl<'a> Gen<'a> {
     fn kind(&mut self) -> &'static str {
         *self.rng.pick(&["push", "push", "push", "root", "disabled", "current"])
@@ -709,6 +712,11 @@ impl<'a> Gen<'a> {
             self.rng.below(NCTXTS as u64)
         }
     }
+    /// the context an observation looks at: mostly the one of the innermost frame
+    fn obs(&mut self, focus: u64) -> Sexp {
+        let c = if self.rng.chance(3, 4) { focus } else { self.ctxt() };
+        Sexp::tagged("obs", vec![Sexp::num(c)])
+    }
     fn thread(&mut self) -> u64 {
         self.rng.below(self.nthreads)
     }
@@ -716,8 +724,7 @@ impl<'a> Gen<'a> {
         self.next_f += 1;
         self.next_f
     }
-    fn new_frame(&mut self, f: u64) -> Sexp {
-        let c = self.ctxt();
+    fn new_frame(&mut self, f: u64, c: u64) -> Sexp {
         Sexp::tagged("new", vec![Sexp::num(f), Sexp::num(c), Sexp::atom(self.kind()), gen_props(self.rng, 3)])
     }
     fn mode(&mut self) -> (Sexp, bool) {
@@ -730,8 +737,9 @@ impl<'a> Gen<'a> {
         }
     }
 
-    /// A block of items; `idle` = frame handles in scope that are opened and not entered. Returns (items, panics).
-    fn block(&mut self, depth: usize, idle: &mut Vec<u64>, in_catch: bool) -> (Vec<Sexp>, bool) {
+    /// A block of items; `idle` = frame handles in scope that are opened and not entered; `focus` = the context of
+    /// the innermost entered frame. Returns (items, panics).
+    fn block(&mut self, depth: usize, idle: &mut Idle, in_catch: bool, focus: u64) -> (Vec<Sexp>, bool) {
         let mut out = Vec::new();
         let n = 1 + self.rng.usize(4);
         for _ in 0..n {
@@ -741,21 +749,26 @@ impl<'a> Gen<'a> {
             self.budget -= 1;
             let deep = depth < self.max_depth;
             match self.rng.below(20) {
-                0..=4 => out.push(Sexp::tagged("obs", vec![Sexp::num(self.ctxt())])),
+                0..=4 => out.push(self.obs(focus)),
                 5 | 6 => {
                     let f = self.fresh();
-                    out.push(self.new_frame(f));
-                    idle.push(f);
+                    let c = self.ctxt();
+                    out.push(self.new_frame(f, c));
+                    idle.push((f, c));
                 }
                 7..=10 if deep => {
                     // create and use at once
                     let f = self.fresh();
-                    out.push(self.new_frame(f));
+                    let c = self.ctxt();
+                    out.push(self.new_frame(f, c));
                     let (m, consumes) = self.mode();
-                    let (body, p) = self.block(depth + 1, idle, in_catch);
+                    let (mut body, p) = self.block(depth + 1, idle, in_catch, c);
+                    if !p && self.rng.chance(1, 2) {
+                        body.push(self.obs(c));
+                    }
                     out.push(Sexp::tagged("use", [vec![Sexp::num(f), m], body].concat()));
                     if !consumes {
-                        idle.push(f);
+                        idle.push((f, c));
                     }
                     if p {
                         return (out, true);
@@ -763,12 +776,15 @@ impl<'a> Gen<'a> {
                 }
                 11..=13 if deep && !idle.is_empty() => {
                     // (re-)use an existing frame, possibly created in another ambient state / on another thread
-                    let f = idle.remove(self.rng.usize(idle.len()));
+                    let (f, c) = idle.remove(self.rng.usize(idle.len()));
                     let (m, consumes) = self.mode();
-                    let (body, p) = self.block(depth + 1, idle, in_catch);
+                    let (mut body, p) = self.block(depth + 1, idle, in_catch, c);
+                    if !p && self.rng.chance(1, 2) {
+                        body.push(self.obs(c));
+                    }
                     out.push(Sexp::tagged("use", [vec![Sexp::num(f), m], body].concat()));
                     if !consumes {
-                        idle.push(f);
+                        idle.push((f, c));
                     }
                     if p {
                         return (out, true);
@@ -776,14 +792,14 @@ impl<'a> Gen<'a> {
                 }
                 14 | 15 if deep && self.nthreads > 1 => {
                     let t = self.thread();
-                    let (body, p) = self.block(depth + 1, idle, in_catch);
+                    let (body, p) = self.block(depth + 1, idle, in_catch, focus);
                     out.push(Sexp::tagged("on", [vec![Sexp::num(t)], body].concat()));
                     if p {
                         return (out, true);
                     }
                 }
                 16 if deep => {
-                    let (body, _) = self.block(depth + 1, idle, true);
+                    let (body, _) = self.block(depth + 1, idle, true, focus);
                     out.push(Sexp::tagged("catch", body));
                 }
                 17 if in_catch || self.rng.chance(1, 6) => {
@@ -791,18 +807,18 @@ impl<'a> Gen<'a> {
                     return (out, true);
                 }
                 18 if !idle.is_empty() && self.rng.chance(1, 3) => {
-                    let f = idle.remove(self.rng.usize(idle.len()));
+                    let (f, _) = idle.remove(self.rng.usize(idle.len()));
                     out.push(Sexp::tagged("drop", vec![Sexp::num(f)]));
                 }
                 19 if deep => out.push(self.tasks(depth + 1, idle)),
-                _ => out.push(Sexp::tagged("obs", vec![Sexp::num(self.ctxt())])),
+                _ => out.push(self.obs(focus)),
             }
         }
         (out, false)
     }
 
     /// An async body; returns (items, number of polls it needs to finish if nothing panics).
-    fn abody(&mut self, depth: usize, mine: &mut Vec<u64>) -> (Vec<Sexp>, usize) {
+    fn abody(&mut self, depth: usize, mine: &mut Idle, focus: u64) -> (Vec<Sexp>, usize) {
         let mut out = Vec::new();
         let mut polls = 0;
         let n = 1 + self.rng.usize(3);
@@ -815,7 +831,7 @@ impl<'a> Gen<'a> {
                 0..=2 => {
                     // frames opened inside a task stay inside this sync block
                     let mut local = mine.clone();
-                    let (body, p) = self.block(depth + 1, &mut local, false);
+                    let (body, p) = self.block(depth + 1, &mut local, false, focus);
                     // handles consumed inside are gone for good
                     mine.retain(|f| local.contains(f));
                     out.push(Sexp::tagged("sync", body));
@@ -830,7 +846,7 @@ impl<'a> Gen<'a> {
                 6..=8 if depth < self.max_depth => {
                     let f = self.fresh();
                     let c = self.ctxt();
-                    let (body, p) = self.abody(depth + 1, mine);
+                    let (body, p) = self.abody(depth + 1, mine, c);
                     polls += p;
                     out.push(Sexp::tagged(
                         "aframe",
@@ -838,18 +854,18 @@ impl<'a> Gen<'a> {
                     ));
                 }
                 9 if depth < self.max_depth && !mine.is_empty() => {
-                    let f = mine.remove(self.rng.usize(mine.len()));
-                    let (body, p) = self.abody(depth + 1, mine);
+                    let (f, c) = mine.remove(self.rng.usize(mine.len()));
+                    let (body, p) = self.abody(depth + 1, mine, c);
                     polls += p;
                     out.push(Sexp::tagged("ause", [vec![Sexp::num(f)], body].concat()));
                 }
-                _ => out.push(Sexp::tagged("sync", vec![Sexp::tagged("obs", vec![Sexp::num(self.ctxt())])])),
+                _ => out.push(Sexp::tagged("sync", vec![self.obs(focus)])),
             }
         }
         (out, polls)
     }
 
-    fn tasks(&mut self, depth: usize, idle: &mut Vec<u64>) -> Sexp {
+    fn tasks(&mut self, depth: usize, idle: &mut Idle) -> Sexp {
         let nt = 1 + self.rng.usize(3);
         let mut tasks = Vec::new();
         let mut polls = Vec::new();
@@ -864,8 +880,14 @@ impl<'a> Gen<'a> {
                     k += 1;
                 }
             }
-            // usually a frame at the root of the task, like `frame.in_future(async { .. })`
-            let (body, p) = self.abody(depth, &mut mine);
+            let (body, p) = if !mine.is_empty() && self.rng.chance(1, 2) {
+                // a pre-created frame at the root of the task, like `frame.in_future(async { .. })`
+                let (f, c) = mine.remove(self.rng.usize(mine.len()));
+                let (body, p) = self.abody(depth, &mut mine, c);
+                (vec![Sexp::tagged("ause", [vec![Sexp::num(f)], body].concat())], p)
+            } else {
+                self.abody(depth, &mut mine, 1)
+            };
             tasks.push(Sexp::tagged("task", body));
             let want = p + 1;
             let n = match self.rng.below(6) {
@@ -900,7 +922,7 @@ fn gen_c03(rng: &mut Rng, tier: Tier, n: usize) -> Vec<String> {
         let mut items = Vec::new();
         // several top-level blocks so the budget is used
         while g.budget > 0 {
-            let (b, p) = g.block(0, &mut idle, false);
+            let (b, p) = g.block(0, &mut idle, false, 1);
             items.extend(b);
             if p {
                 break;
